@@ -260,7 +260,15 @@ def _probe_kf08():
     return "lab_bins" in r.dims
 
 
-PROBES = {"KF01": _probe_kf01, "KF02": _probe_kf02, "KF03": _probe_kf03, "KF04": _probe_kf04, "KF05": _probe_kf05,
+def _probe_kf09():
+    import numpy as np
+    import flox
+    t = np.array(["2001-01-01", "NaT", "2001-01-05", "NaT"], dtype="datetime64[ns]")
+    r = np.asarray(flox.groupby_scan(t, np.array([0, 0, 1, 1]), func="ffill"))
+    return bool(np.isnat(r[1]))
+
+
+PROBES = {"KF09": _probe_kf09, "KF01": _probe_kf01, "KF02": _probe_kf02, "KF03": _probe_kf03, "KF04": _probe_kf04, "KF05": _probe_kf05,
           "KF06": _probe_kf06, "KF07": _probe_kf07, "KF08": _probe_kf08}
 
 
